@@ -168,7 +168,13 @@ pub fn run_case(case: &TrainCase) -> TrainRun {
             );
             if case.hand_assembled {
                 let (sim0, _tp, path_tpc, train_res, _fb) = tsb.make_set_speed_train_sim_and_parts(&net, &path, trace.clone(), case.save_interval)?;
-                let state = sim0.state;
+                let mut state = sim0.state;
+                // a third of the hand-assembled sims start from a state that has been through
+                // another run (a heavier train's): its stored weight is stale and every step
+                // must derive it afresh from the static mass
+                if case.trace.len() % 3 == 0 {
+                    state.weight_static = state.mass_static * altrios_core::uc::ACC_GRAV * 1.7;
+                }
                 let mut v = serde_json::to_value(&train_res)?;
                 let grade = altrios_core::train::kind::path_res::Strap::new(path_tpc.grades(), &state)?;
                 let curve = altrios_core::train::kind::path_res::Strap::new(path_tpc.curves(), &state)?;
